@@ -248,6 +248,19 @@ Proof.
   exact (seven_step dbg hp ho hd shp shs (proj1 HP)).
 Qed.
 
+Theorem statement_eight_all :
+  exists R : url -> spec_url -> Prop,
+    (forall u su, R u su -> model_api dbg u = Some (spec_api_list shs su))
+    /\ (forall input u, usv_list input -> known_c01 None input = 0 ->
+          parse_url dbg hp ho hd None None input = POk u ->
+          exists su, spec_basic_url_parse shp input None = BDone su /\ R u su)
+    /\ (forall u su s v, R u su -> (seven s = true \/ (s = QHref /\ href_fits v)) -> usv_list v -> known_c07 u s v = 0 ->
+          exists u' su', model_set dbg hp ho hd s u v = Some u' /\ spec_step shp s su v = Some su' /\ R u' su').
+Proof.
+  exists (corrS dbg shs). split; [intros u su C; exact (corr_api dbg shs u su (proj1 C))|].
+  split; [exact parse_all_corrS | exact eight_step].
+Qed.
+
 End All.
 
 (* ---------- host functions that meet host_parse_ok ---------- *)
